@@ -97,6 +97,16 @@ v('C07', 'fire', KA, 'cho_solve((L, True), HP', 'cho_solve((L, False), HP')
 v('C07', 'fire', KA, 'S = HP @ H.T + R', 'S = HP @ H.T')
 v('C07 C19', 'fire', KA, 'K = cho_solve((L, True), HP, overwrite_b=True).T', 'K = cho_solve((L, True), P, overwrite_b=True).T')
 v('C07', 'silent', KA, 'U = np.eye(len(x)) - K.dot(H)', 'U = np.identity(len(x)) - K @ H')
+_MG_OLD = ["    def __init__(self, data):\n        self.data = data\n",
+           "        if time not in self.data.index:\n            return None\n\n        z = transform.compute_lla_difference(pva[LLA_COLS],\n                                             self.data.loc[time, LLA_COLS])"]
+_MG_HELPER = "    def __init__(self, data):\n        self.data = data\n\n    def _find_measured(self, time):\n%s\n"
+_MG_USE = "        measured = self._find_measured(time)\n        if measured is None:\n            return None\n\n        z = transform.compute_lla_difference(pva[LLA_COLS], measured[LLA_COLS])"
+v('C06', 'fire', 'measurements.py', _MG_OLD, [_MG_HELPER % "        index = np.argmin(np.abs(np.asarray(self.data.index) - time))\n        if not np.isclose(self.data.index[index], time):\n            return None\n        return self.data.iloc[index]", _MG_USE], 'seeded C06 round 3 (in kind): time matched with np.isclose (window grows with the stamp)')
+v('C06 C13', 'silent', 'measurements.py', _MG_OLD, [_MG_HELPER % "        if time not in self.data.index:\n            return None\n        return self.data.loc[time]", _MG_USE], 'exact membership test moved into a helper')
+v('C07', 'fire', KA, 'U.dot(P).dot(U.T) + K.dot(R).dot(K.T)', 'P - K.dot(S).dot(K.T)', 'seeded C07 round 3: short form P - K S K^T (cancellation, not PSD by construction)')
+v('C14', 'fire', 'inertial_sensor.py', """        bias = self.bias + self.bias_walk * np.cumsum(
+            self.rng.randn(*readings.shape) * dt ** 0.5, axis=0)""", """        bias = self.bias + self.bias_walk * dt ** 0.5 * np.cumsum(
+            self.rng.randn(*readings.shape), axis=0)""", 'seeded C14 round 3: sqrt(dt) pulled out of the cumulative sum')
 v('C10 C11', 'fire', 'filters.py', """    measurement_times = np.hstack([np.empty(0)] + [
         np.asarray(measurement.data.index) for measurement in measurements])
     measurement_times = np.sort(np.unique(measurement_times))
